@@ -19,6 +19,19 @@ import (
 
 func init() {
 	families["C17"] = append(families["C17"], errFlowFamily)
+	// C11: "ignore missing turns a template that does not exist into empty output while every other
+	// failure is reported" is the error flow of the include tag
+	families["C11"] = append(families["C11"], func(w *World, _ string) ([]*Obligation, []string) {
+		obls, _ := errFlowFamily(w, "C17")
+		var out []*Obligation
+		for _, o := range obls {
+			if strings.HasPrefix(o.Name, "(*IncludeNode).Render/") {
+				o.Props = []string{"C11"}
+				out = append(out, o)
+			}
+		}
+		return out, []string{fmt.Sprintf("error flow of the include tag: %d obligations", len(out))}
+	})
 }
 
 func expandFuncList(w *World, items []string) []string {
@@ -115,6 +128,16 @@ func errFlowFamily(w *World, prop string) ([]*Obligation, []string) {
 		if base != nil && base.Flags["errretry"] != "" {
 			retry = strings.Fields(base.Flags["errretry"])
 		}
+		// errretrywhen: the condition over the pending failure under which the retry supersedes it
+		// (a template that was not found under the resolved name may be looked for under the name as
+		// written; any other failure of the first attempt stays pending)
+		var retryWhen *CExpr
+		if base != nil && base.Flags["errretrywhen"] != "" {
+			e, err := parseCExpr(base.Flags["errretrywhen"])
+			if err == nil {
+				retryWhen = &CExpr{Text: base.Flags["errretrywhen"], ast: e}
+			}
+		}
 		lastErrOf := map[string]string{}
 		// errreset: success of the named callee discharges earlier failures of the same callee
 		// ("loaders are consulted in order and the first that has the name wins")
@@ -196,7 +219,17 @@ func errFlowFamily(w *World, prop string) ([]*Obligation, []string) {
 			for _, r := range retry {
 				if strings.Contains(callee, r) {
 					if prev, ok := lastErrOf[callee]; ok {
-						old = fx.define("gh_pendErr_retry", "Iface", ite("(= "+old+" "+prev+")", "nil-iface", old))
+						cond := "(= " + old + " " + prev + ")"
+						if retryWhen != nil {
+							t, err := fx.evalContract(retryWhen, &evalEnv{fx: fx, heap: fx.cur.heap, oldHeap: fx.heap0})
+							if err == nil {
+								cond = and(cond, t)
+							} else {
+								fx.outside = append(fx.outside, "errretrywhen: "+err.Error())
+								cond = "false"
+							}
+						}
+						old = fx.define("gh_pendErr_retry", "Iface", ite(cond, "nil-iface", old))
 					}
 					lastErrOf[callee] = e
 				}
